@@ -541,6 +541,7 @@ func (m *BVM) buildEdges() {
 	} else {
 		m.Problems = append(m.Problems, "package bitxhub-model/constant not loaded")
 	}
+	var wrappers []wrapperInfo
 	for _, fn := range m.P.ModuleFuncs(true) {
 		for _, c := range Calls(fn) {
 			if !IsCrossInvoke(c) {
@@ -573,9 +574,72 @@ func (m *BVM) buildEdges() {
 				}
 			}
 			m.Edges = append(m.Edges, e)
+			// a wrapper that forwards its parameters to CrossInvoke (invokeChainService(method, id)): every call of
+			// the wrapper is a cross-invoke edge with the constants given there
+			mi, ai := paramIndex(fn, Arg(c, 1)), paramIndex(fn, Arg(c, 0))
+			if e.Method == "" && mi >= 0 {
+				wrappers = append(wrappers, wrapperInfo{fn: fn, methodIdx: mi, addrIdx: ai, addrConst: e.AddrConst})
+			}
+		}
+	}
+	for _, w := range wrappers {
+		for _, fn := range m.P.ModuleFuncs(true) {
+			for _, c := range Calls(fn) {
+				call, ok := c.(*ssa.Call)
+				if !ok || StaticCallee(c) != w.fn || w.methodIdx >= len(call.Call.Args) {
+					continue
+				}
+				e := &Edge{Site: call, From: fn, AddrConst: w.addrConst}
+				if s, ok := ConstString(call.Call.Args[w.methodIdx]); ok {
+					e.Method = s
+				}
+				if w.addrIdx >= 0 && w.addrIdx < len(call.Call.Args) {
+					if a := AddrConstOfValue(call.Call.Args[w.addrIdx]); a != "" {
+						e.AddrConst = valToName[a]
+					}
+				}
+				if e.Method != "" {
+					if e.AddrConst != "" {
+						if t := m.ByAddr[e.AddrConst]; t != nil {
+							if en := t.Entry(e.Method); en != nil {
+								e.Targets = append(e.Targets, en)
+							}
+						}
+					} else {
+						for _, t := range m.Contracts {
+							if en := t.Entry(e.Method); en != nil {
+								e.Targets = append(e.Targets, en)
+							}
+						}
+					}
+				}
+				m.Edges = append(m.Edges, e)
+			}
 		}
 	}
 	sort.Slice(m.Edges, func(i, j int) bool { return m.Edges[i].Site.Pos() < m.Edges[j].Site.Pos() })
+}
+
+type wrapperInfo struct {
+	fn                 *ssa.Function
+	methodIdx, addrIdx int
+	addrConst          string
+}
+
+// paramIndex: v is (a conversion of) a parameter of fn; returns its index in fn.Params, else -1.
+func paramIndex(fn *ssa.Function, v ssa.Value) int {
+	v = Strip(v)
+	for i := 0; i < 3; i++ {
+		if cv, ok := v.(*ssa.Convert); ok {
+			v = Strip(cv.X)
+		}
+	}
+	for i, p := range fn.Params {
+		if ssa.Value(p) == v {
+			return i
+		}
+	}
+	return -1
 }
 
 // ContractOfFn returns the registered contract whose method (own or via an
